@@ -19,6 +19,7 @@ type oracleState struct {
 	// C08: per set UID, last observed (template content, update revision).
 	lastUpdRev map[string]updRevObs
 	// ownedRevCount etc. are computed from the store on demand.
+	migrated    map[string]*migration
 	helperEvals int
 	eventEvals  int
 	recEvals    int
@@ -41,7 +42,7 @@ type updRevObs struct {
 }
 
 func newOracleState() *oracleState {
-	return &oracleState{scaleIn: map[string]*scaleInWatch{}, lastUpdRev: map[string]updRevObs{}}
+	return &oracleState{scaleIn: map[string]*scaleInWatch{}, lastUpdRev: map[string]updRevObs{}, migrated: map[string]*migration{}}
 }
 
 // eventCtx records what the event handlers did for one delivered event.
